@@ -32,7 +32,7 @@ FORBIDDEN = re.compile(
     r"type-in-type|impredicative-set|native_compute)\b")
 
 
-AUDIT_EXTRA = {"C09": ("C09ring", "C03")}
+AUDIT_EXTRA = {"C09": ("C09ring", "C09disp", "C03")}
 
 
 def log(*a):
@@ -534,7 +534,9 @@ def main():
 
         # 3. verdict
         known = load_known()
-        bad_idx = sorted(set(dis) | set(mon))
+        # monitor failures first: they carry a concrete failing input; a benign disagreement earlier in
+        # the run must not be the one that gets shrunk and reported
+        bad_idx = sorted(mon) + sorted(set(dis) - set(mon))
         reported = set()
         reproduced_known = set()
         shrinks = 0
